@@ -452,6 +452,8 @@ def run(ctx):
     direct_programs(ctx)
     waiter_list_correspondence(ctx, ctx.n(300, 3000))
     from harness.props import C01
+    # (what a kept condition object does must not depend on where the allocator puts the next Loop: many runs in a row)
+    C01.reused_conditions(ctx, ctx.n(20, 200))
     C01.kernel_correspondence(ctx, ctx.n(200, 2000))     # order of execution of the bare Loop (both back ends) = kexec
 
 
